@@ -24,8 +24,42 @@ def run(ctx):
     for _ in range(ctx.n(50000, 2000000)):
         strings.append(core.rand_vector("2", rng, p_absent=rng.choice([0.1, 0.4, 0.7])))
     ctx.extra["exhaustive_part"] = "all 729 base vectors"
-    for i in range(0, len(strings), 100000):
-        scoring.check_scores(ctx, "2", strings[i:i + 100000], "v2")
+    for i in range(0, len(strings), 200000):
+        scoring.check_scores(ctx, "2", strings[i:i + 200000], "v2")
+    if ctx.tier == "thorough" and ctx.scale == 1:
+        n = 0
+        for chunk in quotient_chunks():
+            scoring.check_scores(ctx, "2", chunk, "v2-quotient")
+            n += len(chunk)
+        ctx.extra["exhaustive_part"] += "; the whole quotient: %d effective assignments + defined/undefined group combinations" % n
+        ctx.exhaustive = True
+
+
+def quotient_chunks(size=300000):
+    """729 base x 48 temporal weight classes x 540 environmental classes (CDP 5 x TD 4 x CR,IR,AR 3^3), every metric
+    defined, plus for every base vector the defined/undefined group combinations (ND spellings)"""
+    import itertools
+    V = VOCAB["2"]
+    buf = []
+    tcls = list(itertools.product(["U", "POC", "F", "H"], ["OF", "TF", "W", "U"], ["UC", "UR", "C"]))
+    ecls = list(itertools.product(["N", "L", "LM", "MH", "H"], ["N", "L", "M", "H"], "LMH", "LMH", "LMH"))
+    for a in enum.all_base("2"):
+        body = "/".join("%s:%s" % (k, a[k]) for k in V["mandatory"])
+        for e, rl, rc in tcls:
+            t = "%s/E:%s/RL:%s/RC:%s" % (body, e, rl, rc)
+            for cdp, td, cr, ir, ar in ecls:
+                buf.append("%s/CDP:%s/TD:%s/CR:%s/IR:%s/AR:%s" % (t, cdp, td, cr, ir, ar))
+            if len(buf) >= size:
+                yield buf
+                buf = []
+        # group definedness: temporal only / environmental only / ND spelled out
+        buf.append(body + "/E:ND/RL:ND/RC:ND")
+        buf.append(body + "/CDP:ND/TD:ND/CR:ND/IR:ND/AR:ND")
+        buf.append(body + "/E:F")
+        buf.append(body + "/TD:M")
+        buf.append(body + "/E:ND/RL:ND/RC:ND/CDP:ND/TD:ND/CR:ND/IR:ND/AR:H")
+    if buf:
+        yield buf
 
 
 replay = scoring.replay_scores
